@@ -86,7 +86,7 @@ def plan(tier, seed):
 
 def _large_cfgs(tier):
     """Size ladder far beyond the exhaustive bound: weights/outputs of 2^18 .. 2^22+ elements with non power-of-two dimensions."""
-    cfgs = [("lin", 4, 1152, 3700), ("lin", 128, 264, 2056), ("lin", 3, 2048, 2056), ("mm", 256, 256, 256)]
+    cfgs = [("lin", 4, 1152, 3700), ("lin", 128, 264, 2056), ("lin", 3, 2048, 2056), ("mm", 256, 256, 256), ("repeat", 48 if tier == "quick" else 300, 32, 9)]
     if tier == "thorough":
         cfgs += [("lin", 2, 4224, 1000), ("lin", 520, 520, 520), ("lin", 1, 1024, 4100), ("mm", 264, 248, 272), ("mm", 1032, 16, 1040)]
     return cfgs
@@ -601,6 +601,7 @@ def _large_task(task, out):
         out["points"] += 1
         out["nontrivial"] += 1
         try:
+            num.poison(4 * x64.numel() // x64.shape[-1] * w64.shape[0], w64.numel() * 4, w64.numel())
             with torch.no_grad():
                 y = thunk()
         except Exception as e:  # noqa
@@ -614,6 +615,22 @@ def _large_task(task, out):
                 out["violations"].append(violation(PID, case, dict(fields, sub=sub), f"{sub}: {msg}"))
         pending.clear()
 
+    if what == "repeat":
+        # repetition ladder: many same-shaped calls, every output kept and judged only after the last call
+        for wkind in ("qint8", "qfloat8_e4m3fn", "qint4"):
+            w, w64 = _weight(wkind, N, K, dt, "exact", 0)
+            for akind in ("float", "qint8", "qfloat8_e4m3fn"):
+                if only and only[:2] != [wkind, akind]:
+                    continue
+                for rep in range(n):
+                    x, x64, _, _ = _act(akind, (3, K), dt, "exact", rep)
+                    c = [wkind, akind, rep]
+                    fields = {"kind": "large", "act": akind, "weight": wkind, "grouped": False, "dtype": dtname, "family": "exact", "bias": False, "repeat": True}
+                    call(c, fields, f"F.linear call #{rep + 1} of {n} same-shaped calls {c} K={K} N={N} {dtname}", lambda x=x, w=w: F.linear(x, w), x64, w64, None, True, K)
+                if only:
+                    pending[:] = [p for p in pending if p[0]["only"] == only]
+                flush()
+        return
     if what == "lin":
         wkinds = ["qint8", "qfloat8_e4m3fn", "qint8_pt"] + (["qint4_g128"] if K % 128 == 0 else ["qint4"])
         for wkind in wkinds:
